@@ -11,7 +11,17 @@ Ties between Model/Gather.v and the real stages:
  W  worker counts: every n_processors in 1..6 on the same input; the model's effective chunk
     size partitions the counts into classes; inside a class the mappings are bitwise equal.
  H  hash seeds: the four stages chained in fresh interpreters with PYTHONHASHSEED = 0,1,2,...;
-    every output compared bitwise across the seeds."""
+    every output compared bitwise across the seeds.  Besides random inputs, scenarios DESIGNED
+    to be sensitive to the order in which the parents of one level consume the chunk's random
+    generator: explicit tree shapes with >= 3 levels and several multi-child parents per level,
+    a reference with a marker signal at every node, >= 12 query cells spread over all the
+    branches, bootstrap_factor in {0.5, 0.75}, bootstrap_iteration >= 5.
+ B  bitwise reference statistics: float64 data whose partial sums are NOT exact (log2CPM values
+    used as given, and raw counts normalised by the code), >= 3 worker buffers that each hold
+    cells of every cluster (observed), `sum`/`sumsq` and everything else compared BITWISE between
+    >= 3 plain repetitions and across forced completion orders; the order in which the parent
+    merges the buffers (observed through a harness-side proxy of the stage module's `h5py` name)
+    compared with dispatch order and with Gather.run_stats_merge (c04_stats_merge_order_fixed)."""
 import contextlib
 import hashlib
 import io
@@ -26,7 +36,7 @@ import sys
 import h5py
 import numpy as np
 
-from harness import faults, pipeline, core
+from harness import faults, pipeline, core, gen, trees, mapcheck
 from harness.props import c14 as K
 
 STEP = 0.16          # seconds between two successive completions
@@ -346,8 +356,333 @@ def generic_schedules(ctx, rng, stage, tag, make_fn, digest, limit, inj=None, wh
     return dig0
 
 
+# ------------------------------------------------------------------ S: key order of the query-marker lookup
+KEY_ORDER_CLASS = 'c04-lookup-key-order-follows-completion-order'
+
+
+def selection_key_order(ctx, rng, tag, make_fn, what):
+    """The lookup returned by the selection stage is a dict filled by the workers when they are done
+    (select_all_markers: output_dict[parent] = genes; dict(output_dict)): as a MAPPING it is the same
+    under every completion order (generic_schedules, c04_selection_keyed_by_parent); here the ORDER of its
+    keys - which is the order of the entries of the JSON file the query_markers CLI writes - is compared
+    between two runs whose workers are forced to finish their work in opposite orders."""
+    base = ctx.scratch / f'ko_{tag}'
+    base.mkdir()
+    res0, tr0 = run_scheduled(ctx, 'selection', make_fn, base / 'b', None)
+    k = len(res0['exit_codes']['selection']) if res0['ok'] else 0
+    if k < 2:
+        ctx.dist('schedule', f'selection key order skipped (k={k})')
+        shutil.rmtree(base, ignore_errors=True)
+        return
+    seen = []
+    for name, sigma in (('f', list(range(k))), ('r', list(range(k - 1, -1, -1)))):
+        res, tr = run_scheduled(ctx, 'selection', make_fn, base / name, sigma, before=True)
+        worked = completion_order(tr, 'selection', ev='worked')
+        ctx.count(('S', 'selection-key-order', tag, tuple(worked)), nontrivial=worked != sorted(worked))
+        if not res['ok']:
+            ctx.violation(f'selection under schedule {sigma} failed: {res["error"]}',
+                          {'class': 'c04-run-failed', 'stage': 'selection', 'intended': sigma, 'input': what})
+            continue
+        seen.append((sigma, worked, [kk for kk in res['value'] if kk not in ('log', 'metadata')],
+                     {kk: vv for kk, vv in res['value'].items() if kk not in ('log', 'metadata')}))
+    if len(seen) == 2:
+        (s1, w1, k1, v1), (s2, w2, k2, v2) = seen
+        if v1 != v2:
+            ctx.violation(f'selection: the lookup differs as a mapping between the completion orders {w1} and {w2}',
+                          {'class': 'c04-selection-schedule-dependent', 'stage': 'selection', 'observed_orders': [w1, w2], 'input': what})
+        elif k1 != k2:
+            ctx.violation(f'selection: the keys of the returned lookup come in the order {k1} when the workers finish in the order '
+                          f'{w1} and in the order {k2} when they finish in the order {w2}',
+                          {'class': KEY_ORDER_CLASS, 'stage': 'selection', 'observed_orders': [w1, w2], 'key_orders': [k1, k2],
+                           'lookup': v1, 'input': what})
+        else:
+            ctx.traces_validated += 1
+    shutil.rmtree(base, ignore_errors=True)
+
+
+# ------------------------------------------------------------------ designed inputs (B, H)
+def labels_of(gt, lf):
+    """Names of the ancestors of leaf lf, top level first, the leaf itself last."""
+    L = len(gt.levels)
+    lab = [None] * L
+    lab[L - 1] = gt.name(lf)
+    cur = lf
+    for li in range(L - 1, 0, -1):
+        cur = mapcheck.parent_of(gt.model, li, cur)
+        lab[li - 1] = gt.name(cur)
+    return lab
+
+
+def write_reference(path, gt, M, labels, genes, encoding):
+    obs = {gt.levels[i]: [lab[i] for lab in labels] for i in range(len(gt.levels))}
+    gen.write_h5ad(path, M, [f'r{i}' for i in range(len(M))], genes, encoding=encoding, obs_cols=obs)
+
+
+def designed_reference(rng, base, shape, rows_per_leaf=(4, 6)):
+    """A reference h5ad over trees.build(shape): raw counts stored as float64 (so that the
+    log2(CPM+1) values and their partial sums are float64 and not exact).  Every node of a
+    level with >= 2 nodes has 2-3 genes of its own that are high in all the leaves below it:
+    every multi-child parent has a marker signal.  Returns (gt, genes, M, labels, encoding)."""
+    gt = trees.build(shape, rng)
+    L = len(gt.levels)
+    leaves = [n for n, _ in gt.model[-1]]
+    own = {}
+    ng = 0
+    for li in range(L):
+        if len(gt.model[li]) < 2:
+            continue
+        for node, _ in gt.model[li]:
+            k = rng.choice([2, 3])
+            own[(li, node)] = list(range(ng, ng + k))
+            ng += k
+    ng += rng.randrange(2, 6)                       # genes without any signal
+    perm = list(range(ng))
+    rng.shuffle(perm)
+    path = {}
+    for lf in leaves:
+        nodes, cur = [(L - 1, lf)], lf
+        for li in range(L - 1, 0, -1):
+            cur = mapcheck.parent_of(gt.model, li, cur)
+            nodes.append((li - 1, cur))
+        path[lf] = nodes
+    rows, labels = [], []
+    for lf in leaves:
+        prof = [0] * ng
+        for nd in path[lf]:
+            for g in own.get(nd, []):
+                prof[perm[g]] = rng.choice([40, 80, 150, 300])
+        for _ in range(rng.randrange(rows_per_leaf[0], rows_per_leaf[1] + 1)):
+            rows.append([max(0, v + rng.randrange(-3, 4)) if v > 0 else rng.choice([0, 0, 0, 1, 2]) for v in prof])
+            labels.append(labels_of(gt, lf))
+    order = list(range(len(rows)))
+    rng.shuffle(order)
+    M = np.array([rows[i] for i in order], dtype=np.float64)
+    labels = [labels[i] for i in order]
+    genes = [pipeline.gname(g) for g in range(ng)]
+    encoding = rng.choice(['csr', 'dense'])
+    write_reference(base / 'ref.h5ad', gt, M, labels, genes, encoding)
+    return gt, genes, M, labels, encoding
+
+
+def stats_call2(base, d, gt, rows_at_a_time, n_processors, normalization):
+    from cell_type_mapper.diff_exp.precompute_from_anndata import precompute_summary_stats_from_h5ad
+    (d / 'tmp').mkdir(exist_ok=True)
+
+    def fn():
+        precompute_summary_stats_from_h5ad(base / 'ref.h5ad', gt.levels, None, d / 'stats.h5',
+                                           rows_at_a_time=rows_at_a_time, normalization=normalization,
+                                           tmp_dir=str(d / 'tmp'), n_processors=n_processors)
+    return fn
+
+
+# ------------------------------------------------------------------ B: reference statistics, bitwise
+STATS_MODULE = 'cell_type_mapper.diff_exp.precompute_from_anndata'
+
+
+class _H5Proxy:
+    """Stands in for the module-level name `h5py` of the statistics stage (harness side, no source
+    hook): every buffer file the PARENT opens for reading is noted, with the n_cells it holds, in
+    the order in which the parent opens (= merges) them."""
+
+    def __init__(self, real, log):
+        self.__dict__.update(_real=real, _log=log, _pid=os.getpid())
+
+    def File(self, name, mode='r', *a, **kw):
+        nm = os.path.basename(str(name))
+        if mode == 'r' and nm.startswith('precomputation_buffer_') and os.getpid() == self._pid:
+            with self._real.File(name, 'r') as f:
+                nc = [int(x) for x in f['n_cells'][()]]
+            self._log.append((str(name), nc))
+        return self._real.File(name, mode, *a, **kw)
+
+    def __getattr__(self, k):
+        return getattr(self._real, k)
+
+
+@contextlib.contextmanager
+def merge_observer(log):
+    import importlib
+    if not faults.guard_on():
+        raise RuntimeError('CELL_TYPE_MAPPER_VERIF=1 is not set')
+    mod = importlib.import_module(STATS_MODULE)
+    real = mod.h5py
+    mod.h5py = _H5Proxy(real, log)
+    try:
+        yield
+    finally:
+        mod.h5py = real
+
+
+def stats_blocks(n_rows, p, rat):
+    """Row ranges of the workers as the statistics stage splits the work (a worker takes row
+    chunks until it holds MORE than ceil(n_rows / p) rows).  Only used to PLACE the cells; what
+    the buffers really hold is observed."""
+    n_per = -(-n_rows // p)
+    out, start, cur = [], 0, 0
+    for r0 in range(0, n_rows, rat):
+        r1 = min(n_rows, r0 + rat)
+        cur += r1 - r0
+        if cur > n_per:
+            out.append((start, r1))
+            start, cur = r1, 0
+    if start < n_rows:
+        out.append((start, n_rows))
+    return out
+
+
+def stats_inputs(rng, base, p, normalization):
+    """float64 expression data that is not dyadic, every cluster present in the row range of every
+    one of the p workers."""
+    c = rng.randrange(3, 7)
+    a = rng.randrange(1, c)
+    gt = trees.build([[a, c - a]], rng)
+    leaves = [n for n, _ in gt.model[-1]]
+    rat = rng.choice([2, 3, 4])
+    blocks = None
+    for n_rows in range(8 * c + rng.randrange(0, 9), 8 * c + 80):
+        b = stats_blocks(n_rows, p, rat)
+        if len(b) == p and all(r1 - r0 >= c + 1 for r0, r1 in b):
+            blocks = b
+            break
+    if blocks is None:
+        raise RuntimeError('stats_inputs: no row count found (harness)')
+    owner = []
+    for r0, r1 in blocks:
+        blk = list(leaves) + [rng.choice(leaves) for _ in range(r1 - r0 - c)]
+        rng.shuffle(blk)
+        owner += blk
+    ng = rng.randrange(8, 15)
+    if normalization == 'log2CPM':
+        # used as given
+        M = [[rng.random() * 37.123 if rng.random() < 0.75 else 0.0 for _ in range(ng)] for _ in owner]
+    else:
+        # raw counts, normalised by the code: log2(1 + 1e6 * x / row sum)
+        M = [[float(rng.randrange(1, 500)) if rng.random() < 0.75 else 0.0 for _ in range(ng)] for _ in owner]
+        for r in M:
+            if not any(r):
+                r[rng.randrange(ng)] = 7.0
+    M = np.array(M, dtype=np.float64)
+    labels = [labels_of(gt, lf) for lf in owner]
+    genes = [pipeline.gname(g) for g in range(ng)]
+    encoding = rng.choice(['dense', 'csr'])
+    write_reference(base / 'ref.h5ad', gt, M, labels, genes, encoding)
+    return gt, genes, M, labels, encoding, rat, blocks
+
+
+def n_entries_differ(pa, pb, keys=('n_cells', 'sum', 'sumsq', 'gt0', 'gt1', 'ge1')):
+    out = {}
+    with h5py.File(pa, 'r') as fa, h5py.File(pb, 'r') as fb:
+        for k in keys:
+            if k in fa and k in fb:
+                x, y = fa[k][()], fb[k][()]
+                n = int((x.view(np.uint8) != y.view(np.uint8)).reshape(x.size, -1).any(axis=1).sum()) \
+                    if x.shape == y.shape and x.dtype == y.dtype else -1
+                if n:
+                    out[k] = n
+    return out
+
+
+def stats_bitwise(ctx, rng, tag, p, normalization, reps, limit):
+    base = ctx.scratch / f'sb_{tag}'
+    base.mkdir()
+    gt, genes, M, labels, encoding, rat, blocks = stats_inputs(rng, base, p, normalization)
+    inp = {'kind': 'stats-bitwise', 'stage': 'stats', 'normalization': normalization, 'rows_at_a_time': rat,
+           'n_processors': p, 'encoding': encoding, 'column_hierarchy': gt.levels, 'genes': genes,
+           'obs': labels, 'X_float64': M.tolist(), 'planned_worker_rows': blocks}
+
+    def mk(d):
+        d.mkdir()
+        return stats_call2(base, d, gt, rat, p, normalization)
+
+    runs = []          # (name, sigma, result, order, merge (dispatch numbers), holds)
+
+    def one(name, sigma):
+        d = base / name
+        log = []
+        with merge_observer(log):
+            res, tr = run_scheduled(ctx, 'stats', mk, d, sigma)
+        order = completion_order(tr, 'stats')
+        k_of = {r['info'].get('buffer_path'): r['k'] for r in tr if r['ev'] == 'begin' and r['stage'] == 'stats'}
+        if len(k_of) != len(res['exit_codes']['stats']) or not all(isinstance(x, str) for x in k_of):
+            # the workers' buffer paths were not recorded (path too long for the trace): merge order unobserved
+            ctx.extra['merge_order_unobserved'] = ctx.extra.get('merge_order_unobserved', 0) + 1
+            merge = None
+        else:
+            merge = [k_of.get(pth, -1) for pth, _ in log]
+        holds = [nc for _, nc in log]
+        runs.append((name, sigma, res, order, merge, holds))
+        return d, res, order, merge, holds
+
+    d0, res0, order0, merge0, holds0 = one('p0', None)
+    if not res0['ok']:
+        ctx.violation(f'stats baseline failed: {res0["error"]}', dict(inp, error=res0['error'], **{'class': 'c04-baseline'}))
+        shutil.rmtree(base, ignore_errors=True)
+        return
+    dig0 = h5_digest(d0 / 'stats.h5')
+    k = len(res0['exit_codes']['stats'])
+    # the case can show an order dependence of the float sums only if >= 3 buffers hold cells of one cluster;
+    # built so that every buffer holds cells of every cluster
+    sensitive = k >= 3 and len(holds0) >= 3 and all(all(x > 0 for x in nc) for nc in holds0)
+    ctx.dist('stats_bitwise', f'{normalization} p={p} buffers={len(holds0)} ' + ('sensitive' if sensitive else 'INSENSITIVE'))
+    if not sensitive:
+        ctx.extra['stats_bitwise_insensitive'] = ctx.extra.get('stats_bitwise_insensitive', 0) + 1
+    ctx.count(('B', tag, 'plain', 0), nontrivial=sensitive)
+    todo = [(f'p{i}', None) for i in range(1, reps)] + [(f's{i}', sg) for i, sg in enumerate(schedules(rng, k, limit))]
+    for name, sigma in todo:
+        d, res, order, merge, holds = one(name, sigma)
+        plain = sigma is None
+        if plain:
+            ctx.count(('B', tag, 'plain', name), nontrivial=sensitive)
+        else:
+            ctx.count(('B', tag, tuple(order)), nontrivial=sensitive and order != sorted(order))
+            ctx.dist('schedule', f'stats-bitwise k={k} ' + ('achieved' if order == list(sigma) else 'missed'))
+        rep = dict(inp, intended=None if plain else list(sigma), observed_order=order, merge_order=merge)
+        if not res['ok']:
+            ctx.violation(f'stats run {name} failed: {res["error"]}', dict(rep, **{'class': 'c04-run-failed'}))
+            continue
+        bad = diff_keys(dig0, h5_digest(d / 'stats.h5'))
+        if bad:
+            nd = n_entries_differ(d0 / 'stats.h5', d / 'stats.h5')
+            if plain:
+                ctx.violation(f'reference statistics of two plain runs on the same file and configuration differ bitwise in {bad} '
+                              f'(entries that differ: {nd}); buffers merged in the order {merge0} (dispatch numbers) in one run '
+                              f'and {merge} in the other',
+                              dict(rep, differs=bad, entries_differ=nd, merge_order_first_run=merge0,
+                                   **{'class': 'c04-run-to-run-statistics-differ'}))
+            else:
+                ctx.violation(f'stats: output differs bitwise between completion order {order} and the plain run in {bad} '
+                              f'(entries that differ: {nd}); merge orders {merge} vs {merge0}',
+                              dict(rep, differs=bad, entries_differ=nd, merge_order_first_run=merge0,
+                                   **{'class': 'c04-stats-schedule-dependent'}))
+        else:
+            ctx.traces_validated += 1
+        shutil.rmtree(d, ignore_errors=True)
+    # (a) the merge order against the model: dispatch order, whatever the completion order
+    cases = []
+    for name, sigma, res, order, merge, holds in runs:
+        durs = [0] * k
+        for j, w in enumerate(order):
+            if 0 <= w < k:
+                durs[w] = j
+        cases.append((405, [p, k, [0] * k, durs]))
+    for (name, sigma, res, order, merge, holds), out in zip(runs, ctx.model(cases)):
+        if not res['ok'] or merge is None:
+            continue
+        if out[0] != 0 or out[1] != [merge]:
+            ctx.violation(f'stats run {name}: the parent merged the worker buffers in the order {merge} (dispatch numbers; '
+                          f'completion order {order}); Gather.run_stats_merge says {out}',
+                          {'class': 'corr:Gather.run_stats_merge', 'kind': 'stats-merge-order', 'run': name,
+                           'observed_merge': merge, 'observed_order': order, 'model': out, 'n_processors': p,
+                           'rows_at_a_time': rat, 'normalization': normalization}, no_input=True)
+        else:
+            ctx.traces_validated += 1
+    ctx.sample({'stage': 'stats-bitwise', 'normalization': normalization, 'n_rows': len(M), 'rows_at_a_time': rat, 'p': p,
+                'cells_per_buffer_per_cluster': holds0, 'merge_order': merge0})
+    shutil.rmtree(base, ignore_errors=True)
+
+
 # ------------------------------------------------------------------ H: hash seeds
-CHILD = r'''
+CHILD = r"""
 import json, os, pathlib, sys
 os.environ['CELL_TYPE_MAPPER_VERIF'] = '1'
 import h5py
@@ -366,13 +701,108 @@ with K.quiet():
     lookup = K.selection_call(d / 'refm.h5', spec['query_genes'], d, spec['p_sel'], spec['behemoth'])()
 lookup = {k: v for k, v in lookup.items() if k not in ('metadata', 'log')}
 json.dump(lookup, open(d / 'markers.json', 'w'))
-cfg = pipeline.config_for(d, base / 'query.h5ad', d / 'stats.h5', d / 'markers.json', chunk_size=spec['chunk_size'],
-                          n_processors=spec['p_map'], rng_seed=spec['rng_seed'], bootstrap_factor=0.6,
-                          bootstrap_iteration=7, normalization='raw')
-with K.quiet():
-    K.mapping_call(cfg)()
+for i, m in enumerate(spec['mappings']):
+    md = d / f'm{i}'
+    md.mkdir()
+    cfg = pipeline.config_for(md, base / 'query.h5ad', d / 'stats.h5', d / 'markers.json', chunk_size=m['chunk_size'],
+                              n_processors=m['p_map'], rng_seed=spec['rng_seed'], bootstrap_factor=m['bootstrap_factor'],
+                              bootstrap_iteration=m['bootstrap_iteration'], normalization='raw')
+    with K.quiet():
+        K.mapping_call(cfg)()
 print('done', os.environ.get('PYTHONHASHSEED'))
-'''
+"""
+
+
+def chunk_sensitivity(ctx, gt, results, n_cells, m):
+    """[(chunk, level, [multi-child parents of that level that received cells of the chunk])] with >= 2
+    parents: there the parents of one level draw, one after the other, from the generator of the chunk."""
+    out = ctx.model([(402, [n_cells, m['p_map'], m['chunk_size']])])[0]
+    if out[0] != 0:
+        return []
+    multi = {lv: {nd for nd, ch in gt.data[lv].items() if len(ch) > 1} for lv in gt.levels[:-1]}
+    found = []
+    for r0, r1 in out[1][1]:
+        for lv in gt.levels[:-1]:
+            got = sorted({c[lv]['assignment'] for c in results[r0:r1]} & multi[lv])
+            if len(got) >= 2:
+                found.append([[r0, r1], lv, got])
+    return found
+
+
+def hash_seed_chain(ctx, base, tag, gt, spec, seeds, inp, designed):
+    """Run the chain of the four stages in fresh interpreters, one per hash seed (and the first hash
+    seed a second time: a difference there is a run-to-run difference, not one of the hash seed);
+    compare every output bitwise."""
+    json.dump(spec, open(base / 'spec.json', 'w'))
+    (base / 'child.py').write_text(CHILD)
+    runs = [(f'h{hs}', hs) for hs in seeds] + [(f'h{seeds[0]}_again', seeds[0])]
+    procs = []
+    for name, hs in runs:
+        env = dict(os.environ, PYTHONHASHSEED=str(hs), PYTHONPATH=f'{core.REPO}/src:{core.VERIF}', CELL_TYPE_MAPPER_VERIF='1')
+        procs.append(subprocess.Popen(['/venv/bin/python', '-W', 'ignore', str(base / 'child.py'), str(base), str(base / name)],
+                                      stdout=subprocess.PIPE, stderr=subprocess.PIPE, text=True, env=env))
+    digs, n_cells = {}, None
+    sens = None
+    for (name, hs), pr in zip(runs, procs):
+        try:
+            so, se = pr.communicate(timeout=900)
+        except subprocess.TimeoutExpired:
+            pr.kill()
+            so, se = pr.communicate()
+            se = 'TIMEOUT ' + se
+        if pr.returncode != 0 or 'done' not in so:
+            ctx.violation(f'stage chain failed under PYTHONHASHSEED={hs}: {se[-800:]}',
+                          dict(inp, hash_seed=hs, stderr=se[-3000:], **{'class': 'c04-run-failed'}))
+            continue
+        d = base / name
+        lk = json.load(open(d / 'markers.json'))
+        # the lookup as a mapping parent -> ordered gene list, and (separately) the order of its keys
+        dg = {'stats': h5_digest(d / 'stats.h5'), 'markers': h5_digest(d / 'refm.h5'),
+              'mask': h5_digest(d / 'mask.h5'), 'lookup': lk, 'lookup_key_order': list(lk.keys())}
+        for i in range(len(spec['mappings'])):
+            dg[f'mapping{i}'] = mapping_digest(d / f'm{i}')
+        digs[name] = dg
+        if sens is None:
+            sens = []
+            for i, m in enumerate(spec['mappings']):
+                results = json.load(open(d / f'm{i}' / 'out' / 'result.json'))['results']
+                sens.append(chunk_sensitivity(ctx, gt, results, len(results), m) if m['bootstrap_factor'] < 1 else [])
+    sensitive = bool(sens) and any(len(s) > 0 for s in sens)
+    if designed and not sensitive:
+        ctx.extra['hash_seed_scenarios_insensitive'] = ctx.extra.get('hash_seed_scenarios_insensitive', 0) + 1
+    ctx.dist('hash_seed_scenario', f'{gt.shape_key()} ' + ('sensitive' if sensitive else 'insensitive'))
+    for name, hs in runs:
+        ctx.count(('H', tag, name), nontrivial=sensitive if designed else True)
+        ctx.dist('hash_seed', hs)
+    first = runs[0][0]
+    upstream = ('stats', 'markers', 'mask', 'lookup')
+    for name, hs in runs[1:]:
+        if first not in digs or name not in digs:
+            continue
+        bad = diff_keys(digs[first], digs[name])
+        if 'lookup_key_order' in bad:
+            bad.remove('lookup_key_order')
+            ctx.violation(f'the keys of the query-marker lookup come in a different order in two runs on the same input '
+                          f'(PYTHONHASHSEED={seeds[0]} and {hs}): {digs[first]["lookup_key_order"]} vs {digs[name]["lookup_key_order"]}',
+                          dict(inp, hash_seeds=[seeds[0], hs], key_orders=[digs[first]['lookup_key_order'], digs[name]['lookup_key_order']],
+                               **{'class': KEY_ORDER_CLASS}))
+        if not bad:
+            ctx.traces_validated += 1
+            continue
+        stages = sorted({b.split('/')[0] for b in bad})
+        rep = dict(inp, differs=bad, stages_that_differ=stages, sensitive_chunks=sens)
+        if hs == seeds[0]:
+            cls = 'c04-run-to-run-statistics-differ' if 'stats' in stages else 'c04-run-to-run-differ'
+            ctx.violation(f'two runs of the stage chain on the same input, both under PYTHONHASHSEED={hs}, differ in {stages}: {bad[:8]}',
+                          dict(rep, hash_seeds=[hs, hs], **{'class': cls}))
+        else:
+            only_mapping = not any(st in upstream for st in stages)
+            cls = 'c04-hash-seed-changes-mapping' if only_mapping else 'c04-hash-seed-dependent'
+            ctx.violation(f'outputs differ between PYTHONHASHSEED={seeds[0]} and {hs} in {stages}: {bad[:8]}',
+                          dict(rep, hash_seeds=[seeds[0], hs], **{'class': cls}))
+    ctx.sample({'hash_seeds': list(seeds), 'tree_shape': gt.shape_key(), 'designed': designed, 'sensitive_chunks': sens,
+                'spec': {k: v for k, v in spec.items() if k != 'query_genes'}})
+    shutil.rmtree(base, ignore_errors=True)
 
 
 def hash_seed_runs(ctx, rng, tag, seeds):
@@ -381,8 +811,6 @@ def hash_seed_runs(ctx, rng, tag, seeds):
     gt, genes, n_rows = K.reference_inputs(rng, base, min_leaves=4, max_leaves=7)
     qgenes = list(genes)
     rng.shuffle(qgenes)
-    with h5py.File(base / 'ref.h5ad', 'r') as f:
-        pass
     # the query: some reference rows, perturbed, genes shuffled
     import anndata
     a = anndata.read_h5ad(base / 'ref.h5ad')
@@ -390,40 +818,50 @@ def hash_seed_runs(ctx, rng, tag, seeds):
     rows = rng.sample(range(n_rows), min(n_rows, 9))
     pos = [genes.index(g) for g in qgenes]
     Q = X[rows][:, pos] + np.array([[rng.choice([0, 0, 1]) for _ in pos] for _ in rows], dtype=X.dtype)
-    from harness import gen
-    gen.write_h5ad(base / 'query.h5ad', Q.astype(np.float32), [f'q{i}' for i in range(len(rows))], qgenes,
-                   encoding=rng.choice(['dense', 'csr']))
+    qenc = rng.choice(['dense', 'csr'])
+    gen.write_h5ad(base / 'query.h5ad', Q.astype(np.float32), [f'q{i}' for i in range(len(rows))], qgenes, encoding=qenc)
     spec = {'levels': gt.levels, 'rows_at_a_time': max(3, n_rows // 5), 'p_stats': 3, 'p_markers': 2, 'p_sel': 2,
-            'behemoth': rng.choice([0, 1000]), 'query_genes': qgenes, 'chunk_size': 3, 'p_map': 3,
+            'behemoth': rng.choice([0, 1000]), 'query_genes': qgenes,
+            'mappings': [{'chunk_size': 3, 'p_map': 3, 'bootstrap_factor': 0.6, 'bootstrap_iteration': 7}],
             'rng_seed': rng.randrange(10 ** 6)}
-    json.dump(spec, open(base / 'spec.json', 'w'))
-    (base / 'child.py').write_text(CHILD)
-    digs = {}
-    for hs in seeds:
-        env = dict(os.environ, PYTHONHASHSEED=str(hs), PYTHONPATH=f'{core.REPO}/src:{core.VERIF}', CELL_TYPE_MAPPER_VERIF='1')
-        r = subprocess.run(['/venv/bin/python', '-W', 'ignore', str(base / 'child.py'), str(base), str(base / f'h{hs}')],
-                           capture_output=True, text=True, env=env, timeout=600)
-        ctx.count(('H', tag, hs), nontrivial=True)
-        ctx.dist('hash_seed', hs)
-        if r.returncode != 0 or 'done' not in r.stdout:
-            ctx.violation(f'stage chain failed under PYTHONHASHSEED={hs}: {r.stderr[-800:]}',
-                          {'class': 'c04-run-failed', 'hash_seed': hs, 'stderr': r.stderr[-3000:], 'tree': gt.data})
-            continue
-        d = base / f'h{hs}'
-        digs[hs] = {'stats': h5_digest(d / 'stats.h5'), 'markers': h5_digest(d / 'refm.h5'),
-                    'mask': h5_digest(d / 'mask.h5'), 'lookup': open(d / 'markers.json').read(),
-                    'mapping': mapping_digest(d)}
-    ks = sorted(digs)
-    for hs in ks[1:]:
-        bad = diff_keys(digs[ks[0]], digs[hs])
-        if bad:
-            ctx.violation(f'outputs differ between PYTHONHASHSEED={ks[0]} and {hs}: {bad[:8]}',
-                          {'class': 'c04-hash-seed-dependent', 'hash_seeds': [ks[0], hs], 'differs': bad, 'tree': gt.data,
-                           'spec': spec})
-        else:
-            ctx.traces_validated += 1
-    ctx.sample({'hash_seeds': ks, 'tree_shape': gt.shape_key(), 'n_rows': n_rows, 'spec': {k: v for k, v in spec.items() if k != 'query_genes'}})
-    shutil.rmtree(base, ignore_errors=True)
+    inp = {'kind': 'hash-seed', 'tree': gt.data, 'spec': spec, 'reference_genes': genes, 'reference_X': X.tolist(),
+           'reference_obs': {lv: [str(v) for v in a.obs[lv].values] for lv in gt.levels},
+           'query_X': Q.astype(np.float32).tolist(), 'query_encoding': qenc}
+    hash_seed_chain(ctx, base, tag, gt, spec, seeds, inp, designed=False)
+
+
+def designed_hash_seed_runs(ctx, rng, tag, shape, seeds):
+    """Scenario built to be sensitive to the order in which the parents of one level are visited: >= 3
+    levels, several multi-child parents per level, markers at every parent, two query cells of every
+    leaf (>= 12 cells) shuffled so that every chunk holds cells of several branches, bootstrap_factor
+    0.5 and 0.75, bootstrap_iteration >= 5."""
+    base = ctx.scratch / f'hd_{tag}'
+    base.mkdir()
+    gt, genes, M, labels, encoding = designed_reference(rng, base, shape)
+    leaf_lv = len(gt.levels) - 1
+    by_leaf = {}
+    for i, lab in enumerate(labels):
+        by_leaf.setdefault(lab[leaf_lv], []).append(i)
+    per = 2 if len(by_leaf) >= 6 else 3
+    rows = [i for lf in sorted(by_leaf) for i in rng.sample(by_leaf[lf], min(per, len(by_leaf[lf])))]
+    rng.shuffle(rows)
+    qgenes = list(genes)
+    rng.shuffle(qgenes)
+    pos = [genes.index(g) for g in qgenes]
+    Q = (M[rows][:, pos] + np.array([[rng.choice([0, 0, 1, 2]) for _ in pos] for _ in rows])).astype(np.float32)
+    qenc = rng.choice(['dense', 'csr'])
+    gen.write_h5ad(base / 'query.h5ad', Q, [f'q{i:02d}' for i in range(len(rows))], qgenes, encoding=qenc)
+    n = len(rows)
+    half = -(-n // 2)
+    mappings = [{'chunk_size': half, 'p_map': 2, 'bootstrap_factor': 0.5, 'bootstrap_iteration': rng.choice([5, 7, 10])},
+                {'chunk_size': n, 'p_map': 1, 'bootstrap_factor': 0.75, 'bootstrap_iteration': rng.choice([5, 6, 9])}]
+    spec = {'levels': gt.levels, 'rows_at_a_time': max(2, len(M) // 8), 'p_stats': 3, 'p_markers': 2, 'p_sel': 2,
+            'behemoth': rng.choice([0, 1000]), 'query_genes': qgenes, 'mappings': mappings,
+            'rng_seed': rng.randrange(10 ** 6)}
+    inp = {'kind': 'hash-seed-designed', 'shape': shape, 'tree': gt.data, 'spec': spec, 'reference_genes': genes,
+           'reference_X': M.tolist(), 'reference_obs': {lv: [lab[i] for lab in labels] for i, lv in enumerate(gt.levels)},
+           'reference_encoding': encoding, 'query_X': Q.tolist(), 'query_encoding': qenc}
+    hash_seed_chain(ctx, base, tag, gt, spec, seeds, inp, designed=True)
 
 
 # ------------------------------------------------------------------ entry points
@@ -432,7 +870,11 @@ def run(ctx):
     if not faults.guard_on():
         raise RuntimeError('CELL_TYPE_MAPPER_VERIF=1 must be set (./check does it)')
     ctx.rule = ('S: a stage run with >= 2 real workers forced to complete in an order other than dispatch order; '
-                'W: one worker count of a sweep 1..6 on one input; H: the four stages chained under one hash seed')
+                'W: one worker count of a sweep 1..6 on one input; H: the four stages chained under one hash seed '
+                '(designed scenarios: only if, in the observed mapping, >= 2 multi-child parents of one level received '
+                'cells of one chunk with bootstrap_factor < 1); B: a run of the statistics stage on float64 data with '
+                'inexact sums in which >= 3 worker buffers were observed to hold cells of every cluster (plain '
+                'repetition, or forced completion order other than dispatch order)')
     ctx.assumptions += [
         'fixed input files and configuration (including rng_seed); distinct cell ids in the query (obs index)',
         'delays are injected by harness-side wrappers inherited through fork (harness/faults.py, guard '
@@ -441,6 +883,12 @@ def run(ctx):
         '(JSON keys config/log/metadata, HDF5 dataset metadata, the metadata entry (timestamp) of a serialized taxonomy '
         'tree, CSV comment lines)',
         'CPU code path only (torch is not installed)',
+        'the query-marker lookup is compared as a mapping (parent -> ordered gene list); the order of its keys is compared '
+        'separately under its own class ' + KEY_ORDER_CLASS + ' (known finding: it follows the completion order of the workers)',
+        'B: the merge order of the statistics buffers is observed through a harness-side proxy of the module-level '
+        'name h5py of precompute_from_anndata (reads of precomputation_buffer_* files in the parent process)',
+        'H: a hash-seed dependence can only be seen if the string hashes of the two interpreters order the names '
+        'involved differently; >= 4 hash seeds per designed scenario (3 in the random one), not all 2**32',
     ]
     q = ctx.quick()
     lim3, lim4 = (6, 6) if q else (6, 24)
@@ -490,12 +938,29 @@ def run(ctx):
         generic_schedules(ctx, rng, 'selection', f'{rd}', mk_sel,
                           lambda d, res: {kk2: vv for kk2, vv in res['value'].items() if kk2 not in ('log', 'metadata')},
                           4 if q else 12, what='query marker selection')
+        selection_key_order(ctx, rng, f'{rd}', mk_sel, what={'tree': gt.data, 'n_rows': n_rows, 'genes': genes})
         shutil.rmtree(fb, ignore_errors=True)
+    # B: bitwise statistics on data with inexact float sums
+    stats_bitwise(ctx, rng, 'a', 3, 'log2CPM', reps=3, limit=lim3)
+    stats_bitwise(ctx, rng, 'b', 4 if q else 3, 'raw', reps=3, limit=6)
+    if not q:
+        stats_bitwise(ctx, rng, 'c', 4, 'log2CPM', reps=4, limit=lim4)
+        stats_bitwise(ctx, rng, 'd', 4, 'raw', reps=4, limit=lim4)
+        stats_bitwise(ctx, rng, 'e', 5, 'log2CPM', reps=3, limit=12)
+        stats_bitwise(ctx, rng, 'f', 3, 'log2CPM', reps=5, limit=lim3)
     faults.uninstall()
     hash_seed_runs(ctx, rng, 'a', [0, 1, 2] if q else [0, 1, 2, 3, 4, 5])
     if not q:
         hash_seed_runs(ctx, rng, 'b', [0, 7, 11, 12345])
         hash_seed_runs(ctx, rng, 'c', [3, 5, 99, 2 ** 31])
+    # H on scenarios designed to be sensitive to the order in which parents draw from the chunk generator
+    designed_hash_seed_runs(ctx, rng, 'da', [[2], [2, 2], [2, 2, 2, 2]], [0, 1, 2, 3] if q else [0, 1, 2, 3, 4, 5, 6, 7])
+    designed_hash_seed_runs(ctx, rng, 'db', [[3], [2, 2, 3]], [0, 1, 2, 3] if q else [0, 1, 2, 3, 4, 5, 6, 7])
+    designed_hash_seed_runs(ctx, rng, 'dc', [[2, 2], [2, 3, 2, 2]], [0, 5, 17, 99] if q else [0, 5, 17, 99, 12345, 2 ** 31])
+    if not q:
+        designed_hash_seed_runs(ctx, rng, 'dd', [[2], [3, 2], [2, 2, 2, 1, 2]], [1, 2, 3, 4, 77, 4242])
+        designed_hash_seed_runs(ctx, rng, 'de', [[3, 2], [2, 2, 2, 3, 2]], [0, 1, 2, 3, 4, 5])
+        designed_hash_seed_runs(ctx, rng, 'df', [[2], [2, 2], [2, 2, 2, 2]], [8, 9, 10, 11, 12, 13])
 
 
 def replay(ctx, rec):
